@@ -762,6 +762,9 @@ class Message:
                 raise error.MalformedUrlError(
                     "Percent encoded strings in CoAP URI hosts need to be UTF-8 encoded"
                 ) from e
+        else:
+            # Like path and query, don't leave over the host of an earlier URI
+            self.opt.uri_host = None
 
     # Deprecated accessors to moved functionality
 
